@@ -65,6 +65,12 @@ def cases(chk):
         for i in (range(5, len(addr)) if not quick else range(5, len(addr), 4)):
             c = "q" if addr[i] != "q" else "p"
             out.append(("bech32dec", "bech32-decode", [S(addr[:i] + c + addr[i + 1:])]))
+        # case: all upper case is the same string; mixed case is refused (a single letter in the other case, in every part of the string)
+        out.append(("bech32dec", "bech32-decode", [S(addr.upper())]))
+        letters = [i for i in range(len(addr)) if addr[i].isalpha()]
+        for i in (letters if not quick else letters[::3] + letters[:2] + letters[-2:]):
+            out.append(("bech32dec", "bech32-decode", [S(addr[:i] + addr[i].upper() + addr[i + 1:])]))
+            out.append(("bech32dec", "bech32-decode", [S(addr.upper()[:i] + addr[i] + addr.upper()[i + 1:])]))
     # p2pkh script <-> address
     for _ in range(3):
         h = rb(rng, 20)
@@ -92,6 +98,15 @@ def cases(chk):
         g = N.to_bytes(32, "little")
         out.append(("add", "add", [D(a.to_bytes(32, "little")), D(b_.to_bytes(32, "little")), D(g)]))
         out.append(("sub", "sub", [D(a.to_bytes(32, "little")), D(b_.to_bytes(32, "little")), D(g)]))
+    # sums and differences that land exactly on the modulus or on zero
+    for g_ in (N, btc.P, 97, 2 ** 255):
+        gb = g_.to_bytes(32, "little")
+        for a in (1, 5, g_ // 2, g_ - 1):
+            for a_, b2 in ((a, g_ - a), (g_ - a, a), (a, g_ - a - 1), (a, g_ - a + 1), (0, g_), (g_, 0), (g_, g_), (g_ - 1, 1)):
+                if 0 <= a_ < 2 ** 256 and 0 <= b2 < 2 ** 256:
+                    out.append(("add", "add", [D(a_.to_bytes(32, "little")), D(b2.to_bytes(32, "little")), D(gb)]))
+            for a_, b2 in ((a, a), (0, a), (a, 0), (0, g_), (g_, g_), (a, a + 1), (a + 1, a)):
+                out.append(("sub", "sub", [D(a_.to_bytes(32, "little")), D(b2.to_bytes(32, "little")), D(gb)]))
     # jacobi symbol
     P = btc.P
     for i in range(6 if quick else 40):
